@@ -451,6 +451,19 @@ package gabi
 //@   loop 1 invariant 0 <= $i && $i <= len(d.disclosedAttributes) && aDisclosed != nil && fresh(aDisclosed) && (forall k in 0..$i :: in(aDisclosed, d.disclosedAttributes[k]) && aDisclosed[d.disclosedAttributes[k]] == d.attributes[d.disclosedAttributes[k]]) && (forall idx in dom(aDisclosed) :: exists k in 0..$i :: d.disclosedAttributes[k] == idx)
 //@   loop 1 modifies mapof(aDisclosed)
 
+//@ # randomisation (C05): A' = A * S^r mod N, e unchanged (a copy), v' = v - e*r for the r drawn in this call, same keyshare contribution;
+//@ # that this preserves the signature equation is algebra of exponents (A'^e * S^v' = A^e * S^(e r) * S^(v - e r)) and not decided
+//@ func (*CLSignature).Randomize
+//@   property C05
+//@   safety
+//@   requires s != nil && s.A != nil && s.E != nil && s.V != nil && wfpk(pk)
+//@   ghost at common.RandomBigInt r: val($r0)
+//@   ensures shape: err == nil ==> result0 != nil && fresh(result0) && result0.A != nil && result0.E != nil && result0.V != nil && result0.E != s.E && val(result0.E) == val(s.E)
+//@   ensures[C05] randomised: err == nil ==> ghost(r) >= 0 && val(result0.A) == rem(prod(val(s.A), pow(val(pk.S), ghost(r), val(pk.N))), val(pk.N)) && val(result0.V) == val(s.V) - prod(val(s.E), ghost(r))
+//@   ensures[C05] keyshare: err == nil ==> result0.KeyshareP == s.KeyshareP
+//@   ensures fail: err != nil ==> result0 == nil
+//@   modifies nothing
+
 //@ # ---- keyshare server, first message (C14): one randomizer for all keys, short enough for the smallest key ----
 //@ func NewKeyshareCommitments
 //@   property C14
